@@ -28,7 +28,7 @@ RULE = ('case = one byte string fed to loads, or one file fed to VbsReader / Ipm
         'are distinct by construction, sampled ones by digest. Non-trivial: header present and MTI numeric (field walk reached).')
 ASSUMPTIONS = ['termination is judged as bounded progress in executed cardutil source lines, not wall-clock time',
                'vmon/ref/codec.py builds and lays out the base messages', 'tools are run in-process with out_encoding utf8']
-SHARD_TIMEOUT = {'quick': 900, 'thorough': 5400}
+SHARD_TIMEOUT = {'quick': 1800, 'thorough': 14400}
 ENCODINGS = ('latin_1', 'ascii', 'cp500', 'cp037')
 
 
